@@ -73,6 +73,8 @@ type wireCtx struct {
 	maxDepth  int
 	protoVals map[ssa.Value]bool // parameters of protocol-predicate helpers being evaluated
 	fnDepth   int
+	// failReturn: additional returns that are failure exits (e.g. a nil result of a function without an error result)
+	failReturn func(*ssa.Return) bool
 }
 
 func newWireCtx(P *Program, vt *VersionTable, proto int64) *wireCtx {
@@ -428,6 +430,9 @@ func (w *wireCtx) build(fn *ssa.Function, roots map[ssa.Value]bool, depth int) (
 						}
 					}
 				}
+				if w.failReturn != nil && depth == 0 && w.failReturn(x) {
+					fail = true
+				}
 				if !fail {
 					w.nfa.edge(cur, end, "")
 				}
@@ -547,6 +552,20 @@ func (w *wireCtx) call(fn *ssa.Function, c *ssa.Call, d map[ssa.Value]bool, cur 
 			return e
 		}
 		return w.nfa.emit(cur, "dyn:func")
+	}
+	// statically bound method of a concrete stream (*bytes.Buffer, *bytes.Reader, *bufio.X) that is the stream itself
+	if f.Signature.Recv() != nil && len(hot) > 0 && hot[0] == 0 && isStreamType(f.Signature.Recv().Type()) && f.Pkg != nil &&
+		(f.Pkg.Pkg.Path() == "bytes" || f.Pkg.Pkg.Path() == "bufio") {
+		switch f.Name() {
+		case "Read", "Write":
+			return w.nfa.emit(cur, bufToken(cc.Args[1]))
+		case "ReadByte", "WriteByte":
+			return w.nfa.emit(cur, "fixed:1")
+		case "WriteString", "ReadString", "ReadBytes", "WriteRune", "ReadRune", "Next":
+			return w.nfa.emit(cur, "blob")
+		case "Len", "Bytes", "String", "Cap", "Size", "Buffered", "Available", "Reset", "UnreadByte", "Grow", "Flush":
+			return cur
+		}
 	}
 	name := strings.TrimPrefix(origin(f).String(), Mod+"/")
 	if tok, ok := wireLeaf[name]; ok {
